@@ -16,10 +16,12 @@ import (
 	"github.com/tsawler/tabula"
 	"github.com/tsawler/tabula/contentstream"
 	"github.com/tsawler/tabula/core"
+	"github.com/tsawler/tabula/font"
 	"github.com/tsawler/tabula/text"
 
 	"verifharness/c20"
 	"verifharness/hx"
+	"verifharness/writers"
 )
 
 func init() { hx.Register("C03", Run, Replay) }
@@ -124,6 +126,14 @@ type fontCase struct {
 	Names []string `json:"names"`
 }
 
+// signature identifies a parsed font by what it does: base font + how it decodes two probe bytes
+func signature(f *font.Font) string {
+	if f == nil {
+		return "-"
+	}
+	return f.BaseFont + "/" + hx.HexS(f.DecodeString([]byte{0x8A, 0xD0, 0x41}))
+}
+
 func runFonts(c *hx.Ctx, idx int) {
 	r := hx.NewRng(c.Seed ^ 0xf0f0).Fork(uint64(idx))
 	pool := []string{"F1", "F2", "F", "/F", "TT0", "/TT0", "C2_0", "/F1", "R9", "Helv"}
@@ -133,8 +143,27 @@ func runFonts(c *hx.Ctx, idx int) {
 	sort.Strings(names)
 	k := fontCase{Names: names}
 	fonts := core.Dict{}
+	// several entries may share Subtype and BaseFont and differ only in their encoding
+	bases := []string{"Helvetica", "Times-Roman", "Courier"}
+	encs := []string{"WinAnsiEncoding", "MacRomanEncoding", "StandardEncoding", "PDFDocEncoding"}
+	used := map[string]bool{}
+	sigOf := map[string]int{}
+	noRefs := func(ref core.IndirectRef) (core.Object, error) { return nil, fmt.Errorf("no refs") }
 	for i, nm := range names {
-		fonts[nm] = core.Dict{"Type": core.Name("Font"), "Subtype": core.Name("Type1"), "BaseFont": core.Name(fmt.Sprintf("Base%d", i+1)), "Encoding": core.Name("WinAnsiEncoding")}
+		var b, e string
+		for {
+			b, e = hx.Pick(r, bases[:1+r.Intn(len(bases))]), hx.Pick(r, encs)
+			if !used[b+e] {
+				used[b+e] = true
+				break
+			}
+		}
+		k.Names[i] = nm
+		d := core.Dict{"Type": core.Name("Font"), "Subtype": core.Name("Type1"), "BaseFont": core.Name(b), "Encoding": core.Name(e)}
+		fonts[nm] = d
+		if t1, err := font.NewType1Font(d, noRefs); err == nil {
+			sigOf[signature(t1.Font)] = i + 1 // what this entry is when parsed on its own
+		}
 	}
 	res := core.Dict{"Font": fonts}
 	keys := map[string]bool{}
@@ -148,12 +177,16 @@ func runFonts(c *hx.Ctx, idx int) {
 	c.Guard("C03/fonts", k, 10, func() {
 		for rep := 0; rep < 24; rep++ {
 			e := text.NewExtractor()
-			e.RegisterFontsFromResources(res, func(ref core.IndirectRef) (core.Object, error) { return nil, fmt.Errorf("no refs") })
+			e.RegisterFontsFromResources(res, noRefs)
 			got := e.GetFonts()
 			var out []string
 			for _, key := range ks {
 				if f, ok := got[key]; ok && f != nil {
-					out = append(out, strings.TrimPrefix(f.BaseFont, "Base"))
+					if i, known := sigOf[signature(f)]; known {
+						out = append(out, fmt.Sprint(i))
+					} else {
+						out = append(out, "?"+signature(f))
+					}
 				} else {
 					out = append(out, "-")
 				}
@@ -176,6 +209,16 @@ func runFonts(c *hx.Ctx, idx int) {
 	c.Check("C03/font-registration-order-dependent", len(results) == 1, k, func() string {
 		return fmt.Sprintf("24 registrations of the same font dictionary %v gave %d different font maps: %v", names, len(results), results)
 	})
+	// every name must be bound to the font its own dictionary entry describes
+	for i, nm := range names {
+		pos := sort.SearchStrings(ks, nm)
+		for variant, cnt := range results {
+			parts := strings.Split(variant, ",")
+			c.Check("C03/font-bound-to-wrong-entry", pos < len(parts) && parts[pos] == fmt.Sprint(i+1), k, func() string {
+				return fmt.Sprintf("font dictionary %v: name %q is bound to entry %s, its own entry is %d (%d of 24 registrations)", names, nm, parts[pos], i+1, cnt)
+			})
+		}
+	}
 	{
 		var es, hk []string
 		for i, nm := range names {
@@ -191,6 +234,61 @@ func runFonts(c *hx.Ctx, idx int) {
 	}
 	c.Count("fonts")
 	c.Case(fmt.Sprint(names), true)
+}
+
+// ---- font metrics must not carry over from one document to the next -----------------
+
+func metricsPDF(base, subtype string, widths string, body string) []byte {
+	p := writers.NewPDF("\n")
+	e := map[int]writers.XEntry{0: {Type: 0, F2: 65535}}
+	e[1] = writers.XEntry{Type: 1, F1: p.Obj(1, 0, "<< /Type /Catalog /Pages 2 0 R >>")}
+	e[2] = writers.XEntry{Type: 1, F1: p.Obj(2, 0, "<< /Type /Pages /Kids [3 0 R] /Count 1 >>")}
+	e[3] = writers.XEntry{Type: 1, F1: p.Obj(3, 0, "<< /Type /Page /Parent 2 0 R /MediaBox [0 0 612 792] /Resources << /Font << /F1 4 0 R >> >> /Contents 5 0 R >>")}
+	e[4] = writers.XEntry{Type: 1, F1: p.Obj(4, 0, fmt.Sprintf("<< /Type /Font /Subtype /%s /BaseFont /%s /Encoding /WinAnsiEncoding%s >>", subtype, base, widths))}
+	e[5] = writers.XEntry{Type: 1, F1: p.Stream(5, "", []byte(body), 0)}
+	p.XrefTable(e, "/Root 1 0 R /Size 6", -1, " \n")
+	return p.Buf.Bytes()
+}
+
+// runMetricsHistory: a document that relies on the built-in metrics of a Standard-14 font
+// is extracted first on its own, then again after a document that brings its own /Widths
+// for the same base font. Must be the first thing the process does with these fonts.
+func runMetricsHistory(c *hx.Ctx) {
+	for _, base := range []string{"Helvetica", "Times-Roman", "Courier", "Helvetica-Bold"} {
+		for _, subtype := range []string{"Type1", "TrueType"} {
+			var body strings.Builder
+			body.WriteString("BT /F1 12 Tf 72 760 Td ")
+			for gap := 18; gap <= 60; gap += 2 {
+				fmt.Fprintf(&body, "(Hello) Tj %d 0 Td (World) Tj %d -16 Td ", gap, -gap)
+			}
+			body.WriteString("ET")
+			var w strings.Builder
+			w.WriteString(" /FirstChar 32 /LastChar 126 /Widths [")
+			for i := 32; i <= 126; i++ {
+				w.WriteString(hx.Pick(c.Rng, []string{"60 ", "1900 ", "250 "}))
+			}
+			w.WriteString("]")
+			pb := filepath.Join(c.OutDir, "c03-metrics-b.pdf")
+			pa := filepath.Join(c.OutDir, "c03-metrics-a.pdf")
+			os.WriteFile(pb, metricsPDF(base, subtype, "", body.String()), 0o644)
+			os.WriteFile(pa, metricsPDF(base, subtype, w.String(), "BT /F1 12 Tf 72 700 Td (Some text with its own widths) Tj ET"), 0o644)
+			k := map[string]interface{}{"metrics": base, "subtype": subtype}
+			var before, after string
+			c.Guard("C03/metrics", k, 30, func() {
+				before, _, _ = tabula.Open(pb).Text()
+				tabula.Open(pa).Text()
+				tabula.Open(pa).Fragments()
+				after, _, _ = tabula.Open(pb).Text()
+			})
+			c.Check("C03/after-history-differs", before == after && before != "", k, func() string {
+				return fmt.Sprintf("Text() of a %s %s document that relies on the built-in metrics: alone %q, after a document with its own /Widths for the same base font %q", subtype, base, before, after)
+			})
+			os.Remove(pa)
+			os.Remove(pb)
+			c.Count("metrics-history")
+			c.Case("metrics"+base+subtype, true)
+		}
+	}
 }
 
 // ---- whole extractions: repeat, history, goroutines ---------------------------------
@@ -312,6 +410,7 @@ func runDocs(c *hx.Ctx, idx int) {
 
 func Run(c *hx.Ctx) {
 	c.Rep.Rule = "parser sessions (1-4 operator programs, earlier ones ending mid-operand, plus failing raw inputs) compared with the parse alone; font dictionaries (1-5 names incl. aliasing pairs F and /F) registered 24 times each; 2-6 documents of the seven formats extracted alone, repeatedly, after other and failing extractions, and on 4-16 goroutines at once under the race detector, comparing digests of Text/ToMarkdown/Chunks().ToJSONL()/ToCSV(); non-trivial = session with at least one operation / every font and document case"
+	runMetricsHistory(c) // first: nothing may have touched the font tables yet
 	for i := 0; i < c.N(1500, 40000); i++ {
 		runSession(c, i)
 	}
